@@ -20,8 +20,11 @@ func init() {
 
 const vC44_jobs = 3
 
-// sequence numbers of the pre-state lie below this bound (the handlers are translation invariant below their overflow guards)
-const vC44_seqBound = 1 << 16
+// sequence numbers of the pre-state lie below 2^seqBits (case split: 16 in the quick tier, 61 in the thorough tier)
+var vC44_seqBound int64
+
+// list lengths the harness inspects: job universe + 1 (a list can never hold more than every job)
+var vC44_lim int
 
 var (
 	vC44_ids      = [vC44_jobs]string{"j0", "j1", "j2"}
@@ -54,7 +57,7 @@ func vC44_wtell(x *workPullingProducerController, ctx *ReceiveContext, to *PID, 
 				owner++
 				underDemand = underDemand && sm.Seq() <= b.demandUpTo
 				assigned = assigned && sm.Seq() > b.confirmedSeq && sm.Seq() <= b.currentSeq
-				for i := 0; i < 4; i++ {
+				for i := 0; i < vC44_lim; i++ {
 					if i < len(b.unconfirmed) && b.unconfirmed[i].workerSeq == sm.Seq() {
 						hit++
 						e := b.unconfirmed[i]
@@ -86,7 +89,7 @@ func vC42x_is1(b []byte, v byte) bool { return len(b) == 1 && b[0] == v }
 // number of times job j is held (pending pool + every binding's unconfirmed list), checking payload/storeSeq on the way
 func vC44_count(x *workPullingProducerController, j int) (int, bool) {
 	n, intact := 0, true
-	for i := 0; i < 4; i++ {
+	for i := 0; i < vC44_lim; i++ {
 		if i < len(x.pending) && x.pending[i].messageID == vC44_ids[j] {
 			n++
 			intact = intact && vC42x_is1(x.pending[i].payload.bytes, vC44_pay[j]) && x.pending[i].storeSeq == vC44_storeSeq[j]
@@ -95,7 +98,7 @@ func vC44_count(x *workPullingProducerController, j int) (int, bool) {
 	for w := 0; w < 2; w++ {
 		b := x.bindings[vC44_names[w]]
 		if b != nil {
-			for i := 0; i < 4; i++ {
+			for i := 0; i < vC44_lim; i++ {
 				if i < len(b.unconfirmed) && b.unconfirmed[i].messageID == vC44_ids[j] {
 					n++
 					intact = intact && vC42x_is1(b.unconfirmed[i].payload.bytes, vC44_pay[j]) && b.unconfirmed[i].storeSeq == vC44_storeSeq[j]
@@ -127,8 +130,8 @@ func vC44_invBinding(x *workPullingProducerController, w int) bool {
 		return true
 	}
 	ok := b.endpointName == vC44_names[w] && b.controller != nil && b.confirmedSeq >= 0 && b.confirmedSeq <= b.currentSeq && b.demandUpTo >= 0
-	ok = ok && int64(len(b.unconfirmed)) == b.currentSeq-b.confirmedSeq && len(b.unconfirmed) <= 4
-	for i := 0; i < 4; i++ {
+	ok = ok && int64(len(b.unconfirmed)) == b.currentSeq-b.confirmedSeq && len(b.unconfirmed) <= vC44_lim
+	for i := 0; i < vC44_lim; i++ {
 		if i < len(b.unconfirmed) {
 			ok = ok && b.unconfirmed[i].workerSeq == b.confirmedSeq+1+int64(i) && vC44_idIndex(b.unconfirmed[i].messageID) >= 0
 		}
@@ -138,8 +141,8 @@ func vC44_invBinding(x *workPullingProducerController, w int) bool {
 
 // Inv (3): every pending entry is a job of the universe
 func vC44_invPending(x *workPullingProducerController) bool {
-	ok := len(x.pending) <= 4
-	for i := 0; i < 4; i++ {
+	ok := len(x.pending) <= vC44_lim
+	for i := 0; i < vC44_lim; i++ {
 		if i < len(x.pending) {
 			ok = ok && vC44_idIndex(x.pending[i].messageID) >= 0
 		}
@@ -150,6 +153,9 @@ func vC44_invPending(x *workPullingProducerController) bool {
 func vC44_step() {
 	vRD_reset()
 	vC44_emitted = 0
+	vC44_seqBound = int64(1) << vCase("seqBits")
+	nJobs := vCase("jobs") // size of the job universe (2 in the quick tier, 3 in the thorough tier)
+	vC44_lim = nJobs + 1
 	prod, self, other := vRD_pid("p"), vRD_pid("s"), vRD_pid("o")
 	ctl := [2]*PID{vRD_pid("a"), vRD_pid("b")}    // current controllers of w1, w2
 	ctlNew := [2]*PID{vRD_pid("c"), vRD_pid("d")} // a later incarnation of w1's / w2's controller
@@ -180,6 +186,9 @@ func vC44_step() {
 	var preSeq [vC44_jobs]int64
 	for j := 0; j < vC44_jobs; j++ {
 		loc[j] = vChoose("jobLocation", 4)
+		if j >= nJobs {
+			loc[j] = 0 // outside this case's job universe
+		}
 		vC44_pay[j] = vNondetByte("jobPayload")
 		vC44_storeSeq[j] = int64(11 + j) // carried data only: distinct concrete values
 		vC44_confirmed[j] = 0
@@ -204,7 +213,7 @@ func vC44_step() {
 		x.handshake = producerHandshakeCredit
 		x.token = "T"
 	case 2:
-		pendingJob = vChoose("pendingJob", vC44_jobs)
+		pendingJob = vChoose("pendingJob", nJobs)
 		x.handshake = producerHandshakeStoredAck
 		x.token = "T"
 		x.pendingMessageID = vC44_ids[pendingJob]
@@ -214,7 +223,7 @@ func vC44_step() {
 	}
 	if vNondetBool("hasCompleted") {
 		x.lastCompletedToken = "T0"
-		x.lastCompletedMessageID = vC44_ids[vChoose("completedJob", vC44_jobs)]
+		x.lastCompletedMessageID = vC44_ids[vChoose("completedJob", nJobs)]
 	}
 	vAssume(vC44_invOrder(x) && vC44_invBinding(x, 0) && vC44_invBinding(x, 1) && vC44_invPending(x))
 
@@ -237,7 +246,15 @@ func vC44_step() {
 	var reqConfirmed, reqUpTo int64
 	authentic, legal := false, false
 	acceptNow := false
-	kind := vCase("kind")
+	// case split: 0 RegisterConsumer, 1 Request, 2 Ack, 3 Produced, 4 StoredAck, 5 tick, 6 Terminated;
+	// 7 / 8 = Request / Ack that is NOT (authenticated and within bounds), 1 / 2 = the ones that are
+	kind, honoured := vCase("kind"), true
+	if kind == 7 {
+		kind, honoured = 1, false
+	}
+	if kind == 8 {
+		kind, honoured = 2, false
+	}
 	switch kind {
 	case 0: // RegisterConsumer: the system authenticates the sender as the companion of worker endpoint w (or refuses)
 		m, err := commands.VRegisterConsumer(vRD_str2("nonceIsCurrent", "N", "N2"))
@@ -273,12 +290,13 @@ func vC44_step() {
 				legal = legal && reqUpTo >= reqConfirmed && reqUpTo <= reqConfirmed+MaxReliableFlowControlWindow
 			}
 		}
+		vAssume(honoured == (authentic && legal))
 	case 3: // Produced
 		msg = &Produced{sessionID: vRD_str2("sessionIsCurrent", "S", "S0"), token: vRD_str2("tokenIsCurrent", "T", "T0"),
-			messageID: vC44_ids[vChoose("producedJob", vC44_jobs)], payload: &vRDMsg{data: []byte{vNondetByte("producedPayload")}}}
+			messageID: vC44_ids[vChoose("producedJob", nJobs)], payload: &vRDMsg{data: []byte{vNondetByte("producedPayload")}}}
 	case 4: // StoredAck
 		sessionCur, tokenCur := vNondetBool("sessionIsCurrent"), vNondetBool("tokenIsCurrent")
-		ackJob := vChoose("ackedJob", vC44_jobs)
+		ackJob := vChoose("ackedJob", nJobs)
 		msg = &StoredAck{sessionID: vRD_pick(sessionCur, "S", "S0"), token: vRD_pick(tokenCur, "T", "T0"), messageID: vC44_ids[ackJob]}
 		acceptNow = sender == prod && sessionCur && tokenCur && x.handshake == producerHandshakeStoredAck && ackJob == pendingJob
 	case 5: // tick
@@ -312,7 +330,9 @@ func vC44_step() {
 
 	if x.failed {
 		// terminal stop of the whole controller (impossible-value guards): nothing further is claimed for this step
-		vCover("terminated")
+		if kind == 0 || kind == 3 || kind == 4 {
+			vCover("terminated")
+		}
 		return
 	}
 	vAssert(vC44_invOrder(x), "Inv preserved: bindingOrder lists exactly the keys of bindings, each once, and nextWorker <= len(bindingOrder)")
@@ -339,13 +359,13 @@ func vC44_step() {
 		} else {
 			vAssert(vC44_confirmed[j] == 0, "no DeliveryConfirmed for a job that was not confirmed in this step")
 		}
-		if confirmedNow {
+		if confirmedNow && (kind == 1 || kind == 2) {
 			vCover("job-confirmed")
 		}
-		if acceptedNow {
+		if acceptedNow && kind == 4 {
 			vCover("job-accepted")
 		}
-		if preCount[j] == 1 && loc[j] >= 2 && n == 1 && (x.bindings[vC44_names[loc[j]-2]] == nil || x.bindings[vC44_names[loc[j]-2]].controller != ctl[loc[j]-2]) {
+		if preCount[j] == 1 && loc[j] >= 2 && n == 1 && (x.bindings[vC44_names[loc[j]-2]] == nil || x.bindings[vC44_names[loc[j]-2]].controller != ctl[loc[j]-2]) && (kind <= 2 || kind == 6) {
 			vCover("job-requeued")
 		}
 	}
@@ -359,7 +379,9 @@ func vC44_step() {
 		}
 		if b != nil && (!bound[w] || b.controller != ctl[w]) {
 			vAssert(b.currentSeq <= b.demandUpTo && b.confirmedSeq == 0, "a new binding starts a fresh sequence space and receives work only under demand")
-			vCover("joined")
+			if kind == 0 {
+				vCover("joined")
+			}
 		}
 	}
 	vCover("end")
